@@ -21,6 +21,8 @@ def one(name):
             if ": function " not in b:
                 out.append((name, b, "", "")); continue
             rel = b.split(":")[0]; q = b.split(": function ")[1].split(":")[0]
+            if q.endswith(" removed") or q not in refcheck._functions(cur.tree(rel)) or q not in refcheck._functions(ref.tree(rel)):
+                out.append((name, b, "", "")); continue
             cf = refcheck._functions(cur.tree(rel))[q]; rf = refcheck._functions(ref.tree(rel))[q]
             equiv.LAST_DIFF.clear()
             ok, why = equiv.equivalent(cf, rf, dict(cur.consts))
